@@ -14,6 +14,8 @@ def mat(v):
 
 def handler(job):
     dgms = [np.array(d, dtype=float).reshape(-1, 2) for d in job["dgms"]]
+    if job.get("intdtype") and all(np.all(np.isfinite(d)) and np.all(d == np.round(d)) and np.all(np.abs(d) < 2 ** 52) for d in dgms):
+        dgms = [d.astype(np.int64) for d in dgms]      # an integer-valued diagram stored with an integer dtype
     before = [d.tobytes() for d in dgms]
     out = {}
     kw = dict(num_steps=job["n"], hom_deg=job["hom_deg"])
